@@ -31,7 +31,8 @@ EXPLANATION = (
     "File constructed on the look-up's empty edge (listed exception: copy_file, callable only from restore_backup); R15.7 a look-up result that may be a deleted item "
     "(include_deleted=True) is filed in a live dictionary only after restore()/`deleted = False`, a re-binding to a new object, or "
     "on the not-deleted / not-found edge; describe_state of FileSystem/Folder/File stores nothing on the object; R15.8 = C05's R5.6 "
-    "(an insertion into a routed collection registers the route on the same path, unconditionally) applied here. NOT decided: "
+    "(an insertion into a routed collection registers the route on the same path, unconditionally) applied here. R15.9 = C11's R11.4 (the exists / not-deleted permission rules compute their documented predicate over the request's own arguments) applied here. "
+    "NOT decided: "
     "bounded-exhaustive sequence conformance against a reference model."
 )
 TECHNIQUE = "static: abstract interpreter over (in live, in deleted, flag) on every path of the partition-changing methods, CFG must-pass on create routes, option def-use"
